@@ -546,13 +546,14 @@ class TimeDelta:
 
     def __str__(self) -> str:
         """Return repr(self)."""
-        days = self.days
-        seconds = self.seconds
-        minutes, seconds = divmod(seconds, 60)
-        hours, minutes = divmod(minutes, 60)
         # Display up to 18 digits of fractional seconds, rounded to the nearest digit.
         fractional_seconds = 10**18 * (self._ticks & _FRACTIONAL_SECONDS_MASK)
         fractional_seconds = (fractional_seconds + _TICKS_PER_SECOND // 2) // _TICKS_PER_SECOND
+        # Rounding up to 10**18 carries into the whole seconds.
+        carry, fractional_seconds = divmod(fractional_seconds, 10**18)
+        days, seconds = divmod((self._ticks >> _BITS_PER_SECOND) + carry, _SECONDS_PER_DAY)
+        minutes, seconds = divmod(seconds, 60)
+        hours, minutes = divmod(minutes, 60)
         s = f"{days} day, " if abs(days) == 1 else f"{days} days, " if days else ""
         s += f"{hours}:{minutes:02}:{seconds:02}"
         if fractional_seconds != 0:
